@@ -9,7 +9,7 @@
 (*    "ewns":b,"tou":b}                         a fresh downlink            *)
 (*   {"k":"linked"|"synced"|"unlinked"|"update"|"remove"|"clear"|"take"|   *)
 (*         "drop"|"event"|"w_update"|"w_remove"|"w_clear"|"w_set"|         *)
-(*         "drop_handles"|"out_fail",                                      *)
+(*         "drop_handles"|"out_fail"|"link_lost" (+ "how":"write|read"),   *)
 (*    "key":..,"val":..,"n":..,                 the input                   *)
 (*    "cbs":[{"cb","key","old","new","map"}],   callbacks it caused         *)
 (*    "done":b}                                 downlink terminated         *)
